@@ -75,15 +75,27 @@ pub fn many_weights(n: usize) -> Vec<Vec<f64>> {
     ws.push(dy.clone());
     dy.reverse();
     ws.push(dy);
+    // only vectors whose doubles add up to exactly 1 in either direction: whether a sum that is off by an ulp or two (1/n
+    // repeated n times, a ramp) is accepted is not specified
+    ws.retain(|w| w.iter().sum::<f64>() == 1.0 && w.iter().rev().sum::<f64>() == 1.0);
     ws
 }
 
-fn set_all(e: &mut Engine, nstream: usize, q: &[Option<&Vec<f64>>], eq: &[f64]) -> Result<(), String> {
+fn set_all(e: &mut Engine, nstream: usize, q: &[Option<&Vec<f64>>], _eq: &[f64]) -> Result<(), String> {
+    // quantities that do not deviate keep the equal weights the engine starts with (they are not passed through the
+    // setters again: for some voice counts the doubles 1/n do not add up to exactly 1, and whether a sum that is off by a
+    // few ulp is accepted is not specified)
     let iw = e.condition.get_interporation_weight_mut();
-    iw.set_duration(q[0].map(|v| &v[..]).unwrap_or(eq)).map_err(|e| e.to_string())?;
+    if let Some(v) = q[0] {
+        iw.set_duration(&v[..]).map_err(|e| e.to_string())?;
+    }
     for i in 0..nstream {
-        iw.set_parameter(i, q[1 + i].map(|v| &v[..]).unwrap_or(eq)).map_err(|e| e.to_string())?;
-        iw.set_gv(i, q[1 + nstream + i].map(|v| &v[..]).unwrap_or(eq)).map_err(|e| e.to_string())?;
+        if let Some(v) = q[1 + i] {
+            iw.set_parameter(i, &v[..]).map_err(|e| e.to_string())?;
+        }
+        if let Some(v) = q[1 + nstream + i] {
+            iw.set_gv(i, &v[..]).map_err(|e| e.to_string())?;
+        }
     }
     Ok(())
 }
